@@ -1,8 +1,8 @@
 import FqModel.Container
 /-!
   C15 — GIF (`format/gif/gif.go:53-159`), as the decoder is: in an image block the `code_size` byte is read
-  BEFORE the local colour table (known finding `gif-local-color-map-order`), and a sub-block chain ends
-  when the byte after a sub-block's data is zero (so a chain must have at least one non-empty sub-block).
+  BEFORE the local colour table (known finding `gif-local-color-map-order`), a sub-block chain is either
+  the lone zero terminator or sub-blocks until the byte after a sub-block's data is zero.
 -/
 namespace FqModel.Container
 
@@ -54,7 +54,12 @@ def gifSubs : Nat → Bytes → Option (List GifSub × Bytes)
             | none => none
             | some (more, r) => some (⟨c.toNat, d, none⟩ :: more, r)
 
-def u8 (b : UInt8) : Nat := b.toNat
+/-- a whole sub-block chain (gif.go:87-104, 139-155): a chain that starts with a zero byte has no sub-blocks, only
+    the `terminator` element (modelled as the empty list) -/
+def gifChain (bs : Bytes) : Option (List GifSub × Bytes) :=
+  match bs with
+  | [] => none
+  | z :: r => if z = 0 then some ([], r) else gifSubs bs.length bs
 
 def gifBlock (bs : Bytes) : Option (GifBlock × Bytes) :=
   match bs with
@@ -64,7 +69,7 @@ def gifBlock (bs : Bytes) : Option (GifBlock × Bytes) :=
       match rest with
       | [] => none
       | code :: rest =>
-        match gifSubs rest.length rest with
+        match gifChain rest with
         | none => none
         | some (subs, r) => some (.ext 0x21 code.toNat subs, r)
     else if b = 0x2c then do
@@ -78,7 +83,7 @@ def gifBlock (bs : Bytes) : Option (GifBlock × Bytes) :=
       let bd := f % 8 + 1
       let (cs, rest) ← takeN 1 rest                      -- gif.go:126: code_size BEFORE the local colour map
       let (lmap, rest) ← if lcm then (takeN (3 * 2 ^ bd) rest).map (fun x => (some x.1, x.2)) else some (none, rest)
-      let (subs, rest) ← gifSubs rest.length rest
+      let (subs, rest) ← gifChain rest
       pure (.image 0x2c (leNat l) (leNat t) (leNat w) (leNat h) lcm (f.testBit 6) (f / 8 % 8) bd (leNat cs) lmap subs, rest)
     else none                                            -- Fatalf("unknown block")
 
@@ -126,16 +131,19 @@ def writeGifSub (s : GifSub) : Bytes := UInt8.ofNat s.count :: s.data ++ termByt
 
 def writeGifSubs (subs : List GifSub) : Bytes := subs.flatMap writeGifSub
 
+/-- a chain without sub-blocks is the lone terminator -/
+def writeGifChain (subs : List GifSub) : Bytes := if subs.isEmpty then [0] else writeGifSubs subs
+
 def optBytes : Option Bytes → Bytes
   | some b => b
   | none => []
 
 /-- the writer that matches the decoder as it is (code size before the local colour table) -/
 def writeGifBlockAsIs : GifBlock → Bytes
-  | .ext intro code subs => [UInt8.ofNat intro, UInt8.ofNat code] ++ writeGifSubs subs
+  | .ext intro code subs => [UInt8.ofNat intro, UInt8.ofNat code] ++ writeGifChain subs
   | .image sep l t w h lcm il zero bd cs lmap subs =>
     [UInt8.ofNat sep] ++ toLE 2 l ++ toLE 2 t ++ toLE 2 w ++ toLE 2 h ++
-    [UInt8.ofNat (128 * b2 lcm + 64 * b2 il + 8 * zero + (bd - 1)), UInt8.ofNat cs] ++ optBytes lmap ++ writeGifSubs subs
+    [UInt8.ofNat (128 * b2 lcm + 64 * b2 il + 8 * zero + (bd - 1)), UInt8.ofNat cs] ++ optBytes lmap ++ writeGifChain subs
 
 def writeGifAsIs (g : GifFile) : Bytes :=
   g.header ++ toLE 2 g.width ++ toLE 2 g.height ++
@@ -145,7 +153,7 @@ def writeGifAsIs (g : GifFile) : Bytes :=
 /-- an image descriptor as the GIF specification lays it out: local colour table FIRST, then the LZW minimum code size -/
 def writeGifImageSpec (l t w h : Nat) (il : Bool) (bd : Nat) (table : Option Bytes) (cs : Nat) (subs : List GifSub) : Bytes :=
   [0x2c] ++ toLE 2 l ++ toLE 2 t ++ toLE 2 w ++ toLE 2 h ++
-  [UInt8.ofNat (128 * b2 table.isSome + 64 * b2 il + (bd - 1))] ++ optBytes table ++ [UInt8.ofNat cs] ++ writeGifSubs subs
+  [UInt8.ofNat (128 * b2 table.isSome + 64 * b2 il + (bd - 1))] ++ optBytes table ++ [UInt8.ofNat cs] ++ writeGifChain subs
 
 /-- what the decoder shows for such an image: without a local table the fields as written; with one, `code_size`
     is the table's first byte and `local_color_map` the rest of the table followed by the real code size -/
